@@ -1,16 +1,16 @@
 SPECIFICATION Spec
 CONSTANTS
   Shapes <- MCShapes
-  ShapeNames = {"branch2"}
+  ShapeNames = {"leaf", "branch2", "dupleaf", "ext", "slot16"}
   Caps = {1, 3}
   Algos = {"double", "single"}
-  FaultSets = {{"cancel", "timeout", "evict", "lose"}}
-  Budgets = {1}
+  FaultSets = {{"lazy", "cancel", "timeout"}}
+  Budgets = {0}
   InitDBs <- MCInitDBs
   Threats = {}
   Log <- LogLast
   Depth = 0
 VIEW cvars
-INVARIANTS TypeOK Inv_C05_Complete Inv_C05_OwnHash Inv_C05_Recreate Inv_C05_Avail Inv_C05_CacheOwnHash
+INVARIANTS TypeOK Inv_C05_Complete Inv_C05_OwnHash Inv_C05_Recreate Inv_C05_Avail Inv_C05_CacheOwnHash Inv_C05_Frontier
 PROPERTIES Act_C05_WriteOwnHash
 CHECK_DEADLOCK FALSE
